@@ -7,5 +7,5 @@ ASSUME JumpIsIteratedSweep
 (* every maximal behaviour is printed once, as JSON, for the replay driver *)
 Terminal == status \in Raised \cup {"done"}
 Emit == Terminal =>
-          PrintT(<< "BEH", ToJson([periods |-> hist, final |-> status, cap |-> Cap, horizon |-> Horizon]) >>)
+          PrintT(<< "BEH", ToJson([periods |-> hist, final |-> status, cap |-> Cap, horizon |-> Horizon, big |-> big]) >>)
 =============================================================================
